@@ -774,6 +774,22 @@ class ListGen(TreeGen):
         fields += lists
         if allow_obj and rng.random() < 0.4:
             fields.append({"n": "ol", "k": "lo", "c": "L0", "r": True, "sz": rng.randint(1, 3)})
+        feat_nested = None
+        if allow_obj and rng.random() < 0.3:
+            # rows of objects each holding a list (made ragged by appends in the op history);
+            # nested foreach over rows[i].v
+            w_ = rng.choice([2, 3])
+            row = {"name": "R0", "fields": [{"n": "v", "k": "l", "w": w_, "s": False, "r": True,
+                                             "rsz": False, "sz": rng.randint(1, 2)}],
+                   "blocks": [], "_level": 0}
+            self.classes.insert(0, row)
+            fields.append({"n": "rows", "k": "lo", "c": "R0", "r": True, "sz": rng.randint(2, 3)})
+            hi_ = rng.randint(0, (1 << w_) - 2)
+            # (index form self.rows[i].v[j]; the iterator form is not supported by the library here)
+            inner_elem = {"t": "f", "p": ["rows", _loopvar(1, False), "v", _loopvar(0, False)]}
+            feat_nested = {"t": "foreach", "p": ["rows"], "it": True, "idx": True, "body": [
+                {"t": "foreach", "p": ["rows", _loopvar(0, False), "v"], "it": True, "idx": True,
+                 "body": [EXPR(BIN(rng.choice(["<=", "!=", "<"]), inner_elem, LIT(hi_ + 1)))]}]}
         cdef = {"name": "K0", "fields": fields, "blocks": [], "_level": 1}
         self.classes.append(cdef)
         own = [dict(f, _p=[f["n"]]) for f in fields if f["k"] == "s"]
@@ -815,6 +831,21 @@ class ListGen(TreeGen):
                                                                  {"t": "flist", "p": [b["n"]]}]})
         if own and rng.random() < 0.5:
             stmts.append(self.stmt(own, 1))
+        # statements naming individual elements by a fixed index, mixed with scalars (the
+        # same element may be named by several statements: rand sets must merge)
+        elems = []
+        for lf in lists:
+            if lf["k"] == "l" and not lf.get("rsz"):
+                for i in range(lf["sz"]):
+                    elems.append({"k": "s", "w": lf["w"], "s": lf["s"], "n": lf["n"], "_p": [lf["n"], i]})
+        if elems and rng.random() < 0.6:
+            for _ in range(rng.randint(1, 3)):
+                e = rng.choice(elems)
+                pool = [e] + [f for f in own + elems if f["s"] == e["s"] and f["_p"] != e["_p"]][:3]
+                stmts.append(simple_stmt(rng, pool) if rng.random() < 0.5 else
+                             self.stmt(pool, 1, kinds=["expr", "expr", "in"], nest=0))
+        if feat_nested:
+            stmts.append(feat_nested)
         rng.shuffle(stmts)
         nb = rng.randint(1, 2)
         cut = len(stmts) // nb if nb > 1 else len(stmts)
